@@ -190,12 +190,10 @@ def setNullable (b : Bool) (t : Ty) : Ty := t.setMeta { t.getMeta with nullable 
 /-- kinds on which a nil kind pointer is dereferenced by `doFormatType` (every `Is…()` test it makes) -/
 def derefKinds : List String := ["scalar", "composable_slot", "array", "map", "ref", "constant_ref", "struct", "intersection"]
 
-/-- the printers' view of the IR: the schemas (for `context.ResolveRefs`), the options and the
-    package being printed (for `packageMapper`) -/
+/-- the printers' view of the IR: the schemas (for `context.ResolveRefs`) and the options -/
 structure Ctx where
   cfg : Cfg
   ss : Schemas
-  cur : String           -- formatPackageName of the schema being printed
 
 def Ctx.fuel (c : Ctx) : Nat := c.ss.objectCount + 2
 
@@ -215,6 +213,17 @@ def fmtScalarTy (cfg : Cfg) (kind : String) (m : Meta) : GoTy :=
     let base : GoTy := if hasHint m "string_format_datetime" then .prim "time.Time" else .prim kind
     if m.nullable then .ptr base else base
 
+/-- `formatField`'s choice of the printed type: `plain` = `doFormatType(fieldType)`, except that a
+    reference which resolves to a constant is printed with the constant's scalar type -/
+def fieldGoTy (c : Ctx) (t : Ty) (plain : GoTy) : GoTy :=
+  match t with
+  | .ref .. =>
+    (match c.resolve t with
+      | none => .crash "formatField:ResolveRefs-cycle"
+      | some (.scalar k v _ m) => if !Cog.Passes.Val.isNil v then fmtScalarTy c.cfg k m else plain
+      | some _ => plain)
+  | _ => plain
+
 mutual
 /-- `doFormatType(def, false)` -/
 def fmtTy (c : Ctx) : Ty → GoTy
@@ -233,19 +242,11 @@ def fmtTy (c : Ctx) : Ty → GoTy
 def fmtFields (c : Ctx) : List Field → List GoField
   | [] => []
   | f :: fs =>
-    (match f.ty with
-      | .ref .. =>
-        (match c.resolve f.ty with
-          | none => { name := ucc f.name, ty := .crash "formatField:ResolveRefs-cycle", jsonName := f.name, omitEmpty := !f.required }
-          | some r =>
-            -- a reference to a constant is printed with the constant's type
-            (match r with
-              | .scalar k v _ m =>
-                if !Cog.Passes.Val.isNil v then { name := ucc f.name, ty := fmtScalarTy c.cfg k m, jsonName := f.name, omitEmpty := !f.required }
-                else { name := ucc f.name, ty := fmtTy c f.ty, jsonName := f.name, omitEmpty := !f.required }
-              | _ => { name := ucc f.name, ty := fmtTy c f.ty, jsonName := f.name, omitEmpty := !f.required }))
-      | _ => { name := ucc f.name, ty := fmtTy c f.ty, jsonName := f.name, omitEmpty := !f.required })
-    :: fmtFields c fs
+    let plain := fmtTy c f.ty
+    { name := ucc f.name,
+      -- a reference to a constant is printed with the constant's type
+      ty := fieldGoTy c f.ty plain,
+      jsonName := f.name, omitEmpty := !f.required } :: fmtFields c fs
 /-- `formatIntersection`, first loop: references are embedded -/
 def fmtInterRefs (c : Ctx) : List Ty → List GoField
   | [] => []
@@ -324,7 +325,7 @@ def extrasOf : Val → List (String × Val)
     (the `break` in the constant-reference case leaves the loop over the fields) -/
 inductive FieldLit where
   | skip
-  | emit (name : String) (e : GoExpr)
+  | emit (e : GoExpr)
   | stop
 
 mutual
@@ -339,13 +340,13 @@ def defaultsFields (c : Ctx) : Nat → List Field → List (String × Val) → L
   | fuel, f :: fs, extras =>
     match defaultsField c fuel f extras with
     | .skip => defaultsFields c fuel fs extras
-    | .emit n e => (n, e) :: defaultsFields c fuel fs extras
+    | .emit e => (ucc f.name, e) :: defaultsFields c fuel fs extras
     | .stop => []
 def defaultsField (c : Ctx) : Nat → Field → List (String × Val) → FieldLit
   | fuel, f, extras =>
-    if isBad f.ty then .emit (ucc f.name) (.crash "defaultsForStruct:malformed-field-type") else
+    if isBad f.ty then .emit (.crash "defaultsForStruct:malformed-field-type") else
     match c.resolve f.ty with
-    | none => .emit (ucc f.name) (.crash "defaultsForStruct:ResolveRefs-cycle")
+    | none => .emit (.crash "defaultsForStruct:ResolveRefs-cycle")
     | some resolved =>
       let m := f.ty.getMeta
       let extra := lookupKV f.name extras
@@ -354,7 +355,6 @@ def defaultsField (c : Ctx) : Nat → Field → List (String × Val) → FieldLi
         || (f.required && f.ty.isRef && resolved.isStruct) || (f.required && f.ty.isArray) || (f.required && f.ty.isMap)
         || isConcreteScalar f.ty || isCref f.ty
       if !needs then .skip else
-      let name := ucc f.name
       match extra with
       | some ev =>
         let dv := formatScalar ev
@@ -367,49 +367,49 @@ def defaultsField (c : Ctx) : Nat → Field → List (String × Val) → FieldLi
                 | none => ("Any", match fieldByName "Any" rfs with | some bf => bf.ty | none => Ty.bad "" {})
               let actual := maybePtr c dv true bty
               let lit := GoExpr.composite (.named (c.mapPkg p) (ucc n)) [(ucc bn, actual)]
-              .emit name (if m.nullable then .addr lit else lit)
-            | _, _ => .emit name (.crash "unreachable"))
-        else .emit name (maybePtr c dv m.nullable resolved)
+              .emit (if m.nullable then .addr lit else lit)
+            | _, _ => .emit (.crash "unreachable"))
+        else .emit (maybePtr c dv m.nullable resolved)
       | none =>
         match f.ty with
         | .scalar _ v _ _ =>
-          if !Cog.Passes.Val.isNil v then .emit name (maybePtr c (formatScalar v) m.nullable resolved)
-          else if !Cog.Passes.Val.isNil m.dflt then .emit name (maybePtr c (formatScalar m.dflt) m.nullable resolved)
-          else .emit name (.placeholder phUnsupportedDefault)
+          if !Cog.Passes.Val.isNil v then .emit (maybePtr c (formatScalar v) m.nullable resolved)
+          else if !Cog.Passes.Val.isNil m.dflt then .emit (maybePtr c (formatScalar m.dflt) m.nullable resolved)
+          else .emit (.placeholder phUnsupportedDefault)
         | .ref p n _ =>
           (match resolved with
             | .scalar .. | .map .. | .array .. =>
-              if !Cog.Passes.Val.isNil m.dflt then .emit name (maybePtr c (formatScalar m.dflt) m.nullable resolved)
-              else .emit name (.placeholder phUnsupportedDefault)
+              if !Cog.Passes.Val.isNil m.dflt then .emit (maybePtr c (formatScalar m.dflt) m.nullable resolved)
+              else .emit (.placeholder phUnsupportedDefault)
             | .struct rfs _ _ _ =>
               if !Cog.Passes.Val.isNil m.dflt then
                 let lit := defaultsForStruct c fuel p n rfs m.dflt
-                .emit name (if m.nullable then .addr lit else lit)
+                .emit (if m.nullable then .addr lit else lit)
               else
                 let call := GoExpr.call (c.mapPkg p) ("New" ++ ucc n)
-                .emit name (if m.nullable then call else .deref call)
+                .emit (if m.nullable then call else .deref call)
             | .enum vs _ =>
               (match vs with
-                | [] => .emit name (.crash "defaultsForStruct:Enum.Values[0]")
+                | [] => .emit (.crash "defaultsForStruct:Enum.Values[0]")
                 | v0 :: _ =>
                   let member := match enumMemberFor m.dflt vs with | some x => x | none => v0.name
-                  .emit name (maybePtr c (.ident (c.mapPkg p) member) m.nullable f.ty))
-            | _ => .emit name (.placeholder phUnsupportedDefault))
+                  .emit (maybePtr c (.ident (c.mapPkg p) member) m.nullable f.ty))
+            | _ => .emit (.placeholder phUnsupportedDefault))
         | .cref p n v _ =>
           (match c.resolve (.ref p n {}) with
-            | none => .emit name (.crash "defaultsForStruct:ResolveRefs-cycle")
+            | none => .emit (.crash "defaultsForStruct:ResolveRefs-cycle")
             | some (.enum vs _) =>
               (match enumMemberFor v vs with
-                | some member => .emit name (.ident (c.mapPkg p) member)
-                | none => .emit name (.raw (if c.mapPkg p == c.cur then "" else c.mapPkg p ++ ".")))
+                | some member => .emit (.ident (c.mapPkg p) member)
+                | none => .emit (.ident (c.mapPkg p) ""))     -- no member matches: the text is empty (or `pkg.`)
             | some _ => .stop)
         | .array e _ =>
-          if !Cog.Passes.Val.isNil m.dflt then .emit name (maybePtr c (formatScalar m.dflt) m.nullable resolved)
-          else .emit name (.sliceLit (fmtTy c e) [])
+          if !Cog.Passes.Val.isNil m.dflt then .emit (maybePtr c (formatScalar m.dflt) m.nullable resolved)
+          else .emit (.sliceLit (fmtTy c e) [])
         | .map i v _ =>
-          if !Cog.Passes.Val.isNil m.dflt then .emit name (maybePtr c (formatScalar m.dflt) m.nullable resolved)
-          else .emit name (.mapLit (fmtTy c i) (fmtTy c v) [])
-        | _ => .emit name (.placeholder phUnsupportedDefault)
+          if !Cog.Passes.Val.isNil m.dflt then .emit (maybePtr c (formatScalar m.dflt) m.nullable resolved)
+          else .emit (.mapLit (fmtTy c i) (fmtTy c v) [])
+        | _ => .emit (.placeholder phUnsupportedDefault)
 end
 
 /-- `generateConstructor` -/
@@ -431,7 +431,7 @@ def emitObjs (c : Ctx) : List (String × Obj) → List GoDecl
   | (_, o) :: rest => emitObj c o ++ emitObjs c rest
 
 def emitSchema (cfg : Cfg) (ss : Schemas) (s : Schema) : String × List GoDecl :=
-  (fmtPkg s.pkg, emitObjs { cfg := cfg, ss := ss, cur := fmtPkg s.pkg } s.objects)
+  (fmtPkg s.pkg, emitObjs { cfg := cfg, ss := ss } s.objects)
 
 def emitSchemasAux (cfg : Cfg) (ss : Schemas) : List Schema → Env
   | [] => []
